@@ -118,7 +118,7 @@ fn build(r: &mut Rng, autoescape: bool, ext_on: &str, ext_off: &str) -> Prog {
             24 => {
                 // every built-in that returns text built from its input: the result is a new, normal string
                 // (`reverse` and cutting filters are left out: they would reorder the marks an earlier capture left)
-                let f = *r.pick(&["lower", "capitalize", "title", "trim", "trim_start", "trim_end", "truncate(length=9999)", "indent", "str", "newlines_to_br", "trim(pat=\"zz\")", "truncate(length=9999, end=\"\")", "indent(first=true)", "replace(from=\"\", to=\"\")"]);
+                let f = *r.pick(&["lower", "capitalize", "title", "trim", "trim_start", "trim_end", "truncate(length=9999)", "indent", "str", "newlines_to_br", "trim(pat=\"zz\")", "pl", "via(name=\"upper\")", "via(name=\"pl\")", "mk | lower", "truncate(length=9999, end=\"\")", "indent(first=true)", "replace(from=\"\", to=\"\")"]);
                 pre += &format!("{{% set {x} = {cur} | {f} %}}");
                 route.push("filter-text-builtin");
                 rebuild = true;
@@ -180,7 +180,11 @@ fn build(r: &mut Rng, autoescape: bool, ext_on: &str, ext_off: &str) -> Prog {
             }
             21 => {
                 // `safe` only works as the last filter: anything rebuilt afterwards is escaped again
-                pre += &format!("{{% set {x} = {cur} | safe | upper %}}");
+                if r.bool() {
+                    pre += &format!("{{% set {x} = {cur} | safe | upper %}}");
+                } else {
+                    pre += &format!("{{% set {x} = plf(v=mkf(v={cur})) %}}");
+                }
                 route.push("safe-then-upper");
                 rebuild = true;
                 cur = x;
@@ -318,7 +322,13 @@ fn build(r: &mut Rng, autoescape: bool, ext_on: &str, ext_off: &str) -> Prog {
     }
     // print site: plain expression (WriteTop), bare variable path (fused WritePath), or a directly printed container
     let (print, sink): (String, &'static str) = if safe_at_end {
-        (format!("{{{{ {cur} | safe }}}}"), "safe")
+        match r.below(6) {
+            0 => (format!("{{{{ {cur} | mk }}}}"), "filter-registered-safe"),
+            1 => (format!("{{{{ mkf(v={cur}) }}}}"), "function-registered-safe"),
+            2 => (format!("{{{{ {cur} | via(name=\"mk\") }}}}"), "safe-filter-through-call_filter"),
+            3 => (format!("{{% set ms = {cur} | mk %}}{{{{ ms }}}}"), "filter-registered-safe-then-variable"),
+            _ => (format!("{{{{ {cur} | safe }}}}"), "safe"),
+        }
     } else {
         match r.below(5) {
             0 => {
@@ -367,8 +377,36 @@ fn depths(out: &str) -> Vec<(char, i32)> {
     v
 }
 
+/// A filter registered as safe: what it returns is written as is
+struct SafeWrapFilter;
+impl tera::Filter<&str, String> for SafeWrapFilter {
+    fn call(&self, value: &str, _: Kwargs, _: &State) -> String {
+        format!("‹{value}›")
+    }
+    fn is_safe(&self) -> bool {
+        true
+    }
+}
+/// A function registered as safe
+struct SafeEchoFunction;
+impl tera::Function<tera::TeraResult<String>> for SafeEchoFunction {
+    fn call(&self, kw: Kwargs, _: &State) -> tera::TeraResult<String> {
+        Ok(format!("«{}»", kw.must_get::<String>("v")?))
+    }
+    fn is_safe(&self) -> bool {
+        true
+    }
+}
+
 fn engine(suffixes: Option<&[&'static str]>, late: bool, tpls: &[(String, String)]) -> Result<Tera, String> {
     let mut t = Tera::default();
+    t.register_filter("mk", SafeWrapFilter);
+    t.register_function("mkf", SafeEchoFunction);
+    // the same two, not registered as safe
+    t.register_filter("pl", |v: &str, _: Kwargs, _: &State| format!("‹{v}›"));
+    t.register_function("plf", |kw: Kwargs, _: &State| -> tera::TeraResult<String> { Ok(format!("«{}»", kw.must_get::<String>("v")?)) });
+    // a filter that applies another registered filter through the State API
+    t.register_filter("via", |v: Value, kw: Kwargs, st: &State| -> tera::TeraResult<Value> { st.call_filter(kw.must_get::<&str>("name")?, &v, Kwargs::default()) });
     t.register_function("ident", |kw: Kwargs, _: &State| -> tera::TeraResult<Value> { Ok(kw.get::<Value>("v")?.unwrap_or(Value::none())) });
     if let (Some(s), false) = (suffixes, late) {
         t.autoescape_on(s.to_vec());
